@@ -15,8 +15,10 @@ Scope.  The theorems live at the metadata / coefficient-phase level.  "Decoded v
 implied by scales and noise" is a measured probe (`program_precision`), not a theorem: noise and the
 floating-point FFT are not modelled.  The property's second sentence ("the scale and level recorded on
 every output are exactly those the operation documents … so that decoding with the recorded scale is
-correct") is FALSE of the code as written for several calls; the `*_counterexample` theorems below are
-the model-side witnesses, the corresponding failing probes are listed in the report.
+correct") was FALSE of the code as written for several calls.  The defects with a small, safe repair are
+fixed in the repository (`/verif/fixes/C06-*.diff`); the model follows the patched code and the former
+counterexamples are now positive statements (`*_fixed`).  The remaining ones need an API / documentation
+decision; they are recorded as known findings and keep their `*_counterexample` witnesses.
 -/
 namespace Lattigo.Props.C06
 open Lattigo.CKKS
@@ -34,6 +36,17 @@ example : ∃ r, step toyP (.addElt false ⟨2, 1, dy 48 0, 4⟩ ⟨2, 1, dy 16 
 theorem meta_spec_addVec {P : Params} {a o : Meta} {len : Nat} {r : Res} (h : step P (.addVec a o len) = .ok r) :
     r.md = ⟨min a.level o.level, a.degree, a.scale, a.logSlots⟩ ∧ len ≤ 2 ^ a.logSlots := addVec_meta h
 example : step toyP (.addVec ⟨2, 1, dy 16 0, 3⟩ ⟨2, 1, dy 16 0, 4⟩ 8) = .ok ⟨⟨2, 1, dy 16 0, 3⟩, []⟩ := by decide +kernel
+
+/-- Add/Sub (scalar operand): min level, the operand's degree, scale and dimensions — whatever the
+    receiver was allocated with (fix C06-1). -/
+theorem meta_spec_addScalar {P : Params} {sub : Bool} {a o : Meta} {re im : SD} {r : Res}
+    (h : step P (.addScalar sub a o re im) = .ok r) :
+    r.md.level = min a.level o.level ∧ r.md.degree = a.degree ∧ r.md.scale = a.scale ∧
+    r.md.logSlots = a.logSlots := addScalar_meta h
+/-- former counterexample: a receiver allocated at the default scale now gets the operand's scale. -/
+theorem addScalar_scale_fixed :
+    step toyP (.addScalar false ⟨2, 1, dy 64 0, 4⟩ ⟨2, 1, dy 16 0, 4⟩ (sd 1 0) (sd 0 0))
+      = .ok ⟨⟨2, 1, dy 64 0, 4⟩, [64, 0]⟩ := addScalar_fresh_receiver_witness
 
 /-- Add/Sub (scalar operand), in place: metadata unchanged. -/
 theorem meta_spec_addScalar_inplace {P : Params} {sub : Bool} {a : Meta} {re im : SD} {r : Res}
@@ -150,10 +163,18 @@ theorem meta_spec_mulThenAdd {P : Params} {relin : Bool} {al : Alias} {a b o : M
 example : ∃ r, step toyP (.mtaElt true .fresh ⟨2, 1, dy 16 0, 4⟩ ⟨2, 1, dy 4 0, 4⟩ ⟨2, 1, dy 16 0, 4⟩) = .ok r :=
   ⟨_, mulThenAdd_int_ratio_witness⟩
 
-theorem meta_spec_mulThenAddScalar {P : Params} {a o : Meta} {re im : SD} {r : Res}
-    (h : step P (.mtaScalar a o re im) = .ok r) :
-    r.md.level = o.level ∧ r.md.degree = a.degree ∧ r.md.logSlots = a.logSlots ∧ a.scale.cmp o.scale ≠ .gt :=
-  mulThenAddScalar_meta h
+/-- MulThenAdd (scalar): min level, the receiver keeps its higher-degree terms, the receiver is not the
+    operand, `op0.Scale ≤ opOut.Scale` (fixes C06-2, C06-3). -/
+theorem meta_spec_mulThenAddScalar {P : Params} {al : Alias} {a o : Meta} {re im : SD} {r : Res}
+    (h : step P (.mtaScalar al a o re im) = .ok r) :
+    al = .fresh ∧ r.md.level = min a.level o.level ∧ r.md.degree = max a.degree o.degree ∧
+    r.md.logSlots = a.logSlots ∧ a.scale.cmp o.scale ≠ .gt := mulThenAddScalar_meta h
+/-- former counterexamples (receiver level kept / degree cut / receiver = operand accepted). -/
+theorem mulThenAddScalar_fixed :
+    step toyP (.mtaScalar .fresh ⟨1, 1, dy 16 0, 4⟩ ⟨2, 2, dy 16 0, 4⟩ (sd 3 0) (sd 0 0))
+      = .ok ⟨⟨1, 2, dy 16 0, 4⟩, [1, 3, 0]⟩ ∧
+    step toyP (.mtaScalar .out0 ⟨2, 1, dy 16 0, 4⟩ ⟨2, 1, dy 16 0, 4⟩ (sd 1 (-1)) (sd 0 0)) = .error .err :=
+  ⟨mulThenAddScalar_level_degree_witness, mulThenAddScalar_alias_witness⟩
 
 /-! ## add_alignment -/
 
@@ -189,14 +210,6 @@ theorem add_alignment_counterexample :
 
 /-! ## defects of the bookkeeping (negations, with witnesses on the model) -/
 
-/-- `Add/Sub(ct, scalar, out)` with `out ≠ ct` never sets the scale of `out`. -/
-theorem addScalar_scale_counterexample :
-    ∃ (a o : Meta) (re im : SD) (r : Res), step toyP (.addScalar false a o re im) = .ok r ∧ r.md.scale ≠ a.scale ∧
-      r.eff = [64, 0] :=
-  ⟨_, _, _, _, _, addScalar_stale_scale_witness, by decide +kernel, rfl⟩
-theorem addScalar_scale_is_receivers {P : Params} {sub : Bool} {a o : Meta} {re im : SD} {r : Res}
-    (h : step P (.addScalar sub a o re im) = .ok r) : r.md.scale = o.scale := (addScalar_meta h).2.2.1
-
 /-- `SetScale` with a non-integer ratio ≥ 2 (and, symmetrically, < 2/q): recorded scale = target, but the
     content is multiplied by `round(ratio·q)` and **not** divided by `q`. -/
 theorem setScale_counterexample :
@@ -209,21 +222,22 @@ theorem mulThenAdd_counterexample :
     step toyP (.mtaElt true .fresh ⟨2, 1, dy 16 0, 4⟩ ⟨2, 1, dy 4 0, 4⟩ ⟨2, 1, dy 10 0, 4⟩)
       = .ok ⟨⟨2, 1, dy 64 0, 4⟩, [6522]⟩ := mulThenAdd_nonint_ratio_witness
 
-/-- `MulThenAdd` with a scalar: receiver keeps a higher level / is cut to the operand's degree. -/
-theorem mulThenAddScalar_counterexample :
-    (mulThenAddScalar toyP ⟨1, 1, dy 16 0, 4⟩ ⟨2, 1, dy 16 0, 4⟩ (sd 3 0) (sd 0 0)).map (fun r => r.md.level) = .ok 2 ∧
-    (mulThenAddScalar toyP ⟨2, 1, dy 16 0, 4⟩ ⟨2, 2, dy 16 0, 4⟩ (sd 3 0) (sd 0 0)).map (fun r => r.md.degree) = .ok 1 :=
-  ⟨mulThenAddScalar_level_witness, mulThenAddScalar_degree_witness⟩
-
 theorem scaleUp_counterexample :
     step toyP (.scaleUp ⟨2, 1, dy 16 0, 4⟩ ⟨2, 1, dy 16 0, 4⟩ (dy 5 (-1))) = .ok ⟨⟨2, 1, dy 40 0, 4⟩, [2]⟩ :=
   scaleUp_truncation_witness
 
-/-- panics reachable through the public API (not errors). -/
-theorem panics_counterexample :
-    step toyP2 (.mulScalar ⟨0, 1, dy 16 0, 4⟩ ⟨0, 1, dy 16 0, 4⟩ (sd 1 (-1)) (sd 0 0)) = .error .panic ∧
-    step toyP (.rescaleTo ⟨1, 1, dy 1 30, 4⟩ (dy 1 0)) = .error .panic :=
-  ⟨mulScalar_prec128_level0_panics, rescaleTo_consumes_all_witness⟩
+/-- the former panics are documented errors / regular results (fixes C06-5, C06-6). -/
+theorem no_panics_fixed :
+    step toyP2 (.mulScalar ⟨0, 1, dy 16 0, 4⟩ ⟨0, 1, dy 16 0, 4⟩ (sd 1 (-1)) (sd 0 0)) = .error .err ∧
+    step toyP (.rescaleTo ⟨1, 1, dy 1 30, 4⟩ (dy 1 0)) = .ok ⟨⟨0, 1, sdiv (dy 1 30) (dy 1013 0), 4⟩, [1]⟩ :=
+  ⟨mulScalar_prec128_level0_errors, rescaleTo_stops_at_level0_witness⟩
+/-- `RescaleTo` is total on ciphertexts of level ≥ 1 with positive scales. -/
+theorem rescaleTo_total {P : Params} {a : Meta} {m : Dy} (hm : m.m ≠ 0) (hs : a.scale.m ≠ 0) (hl : a.level ≠ 0) :
+    ∃ r, step P (.rescaleTo a m) = .ok r := Lattigo.CKKS.rescaleTo_total hm hs hl
+example : (dy 1 0).m ≠ 0 := by decide +kernel
+/-- constant scaling at a level that is too low is an error. -/
+theorem const_scale_low_level_is_error {P : Params} (h : P.lcpr = 2) : primeScale P 0 = .error .err :=
+  primeScale_low_level h
 
 /-! ## phase-level semantics (any commutative ring) -/
 section
@@ -283,13 +297,15 @@ end Lattigo.Props.C06
 #print axioms Lattigo.Props.C06.add_alignment
 #print axioms Lattigo.Props.C06.add_alignment_error
 #print axioms Lattigo.Props.C06.add_alignment_counterexample
-#print axioms Lattigo.Props.C06.addScalar_scale_counterexample
-#print axioms Lattigo.Props.C06.addScalar_scale_is_receivers
+#print axioms Lattigo.Props.C06.meta_spec_addScalar
+#print axioms Lattigo.Props.C06.addScalar_scale_fixed
 #print axioms Lattigo.Props.C06.setScale_counterexample
 #print axioms Lattigo.Props.C06.mulThenAdd_counterexample
-#print axioms Lattigo.Props.C06.mulThenAddScalar_counterexample
+#print axioms Lattigo.Props.C06.mulThenAddScalar_fixed
 #print axioms Lattigo.Props.C06.scaleUp_counterexample
-#print axioms Lattigo.Props.C06.panics_counterexample
+#print axioms Lattigo.Props.C06.no_panics_fixed
+#print axioms Lattigo.Props.C06.rescaleTo_total
+#print axioms Lattigo.Props.C06.const_scale_low_level_is_error
 #print axioms Lattigo.Props.C06.phase_Add
 #print axioms Lattigo.Props.C06.phase_Sub
 #print axioms Lattigo.Props.C06.phase_AddAligned
